@@ -10,8 +10,8 @@ META = {
     "technique": "Rocq proofs: (1) Gallina models of the recursive algorithms of the plain BDD kind (coq/DD/Quant.v, function by function after oxidd-rules-bdd/src/simple/apply_rec.rs and lib.rs) and of the complement-edge kind (coq/DD/QuantBcdd.v after complement_edge/apply_rec.rs): set_pop, quant with the popped cache key and the unique-quantifier 'variable above f' rule, restrict with its tail-recursive literal walk (BCDD: with the f_neg / vars_neg polarity tracking and the untagged cache key), substitute_prepare + substitute via ite cached under the substitution id, the fused apply_quant (BCDD: instances And / Xor / UniqueNand and the two dispatch tables), the *_edge entry points; each proved sound against the spec layer coq/DD/Sem.v for every well-formed table, every cache satisfying the invariant (any implementation that never invents entries), every operand order and every sufficient fuel; (2) spec-layer laws (order/duplicate independence, duality, support, restrict = cofactor, simultaneous substitution, the dispatch tables as identities); (3) a state machine over table, cache, registry of substitution objects, id counter and cache clears (histories). Correspondence: exhaustive 3-variable sweeps and random instances on the real BDD/BCDD/ZBDD managers decided by the extracted spec functions, and for the BDD and BCDD kinds every operation replayed on the extracted models, which must return the very edge the real code returned; ZBDD restrict: Gallina model (coq/DD/ZbddBool.v zrestrict / zrestrict_base after oxidd-rules-zbdd/src/apply_rec.rs restrict / restrict_base: level-threaded recursion, cube read by skipped level = negative literal / equal children = no literal / lo = Empty = positive literal, reduce1 don't-care nodes, re-insertion of don't-care nodes below the cube, cache only when both operands have a node at the level) proved against the set-family semantics of C09 and replayed on the real ZBDD manager",
     "category": "proof",
     "design_ref": "DESIGN.md section 5, C04",
-    "level_text": "Theorems (coq/Props/C04.v, 61, all closed under the global context). Entry points of the plain BDD kind, in terms of the Boolean function a handle denotes (bfun_of) and coq/DD/Sem.v: C04_exists / C04_forall / C04_unique (result = exists_s / forall_s / unique_s over the caller's variable list, where the vars handle denotes the conjunction of those variables; any list order, duplicates allowed for exists/forall), C04_apply_exists / C04_apply_forall / C04_apply_unique (all 8 operators: result = the quantifier applied to lift2 op f g), C04_apply_quant_is_apply_then_quant (the fused form and apply-then-quantify both terminate and denote the same function whatever the caches hold), C04_restrict (result = restrict_s lits f for the literal cube denoted by the vars handle), C04_substitute (result = subst_s of the pairs' functions, simultaneous, for every use of every substitution object registered under its id, in any interleaving, with whatever the cache accumulated before), C04_subst_register / C04_subst_fresh_no_entry (an id never handed out serves nothing, registering it keeps the invariant), C04_qinv_init / C04_qstep_ok / C04_qrun_ok (state machine over table, cache, registry of substitution objects, id counter and cache clears: every operation of every history terminates, keeps the invariant and returns the spec function). The same for the complement-edge kind: C04_bcdd_quant, C04_bcdd_apply_quant (through apply_quant_dispatch::<Q,QN> and apply_quant_unique_dispatch incl. UniqueNand, all 8 operators), C04_bcdd_restrict (f_neg / vars_neg tracking), C04_bcdd_substitute, C04_bcdd_subst_register, C04_bcdd_subst_fresh_no_entry. Each of these also states: the model never gets stuck with fuel S(nlevels), the table is only extended, the table invariant (BddOK / BcOK) and the cache invariant (QCacheOK / QCacheOKC) are preserved. Recursive algorithms for arbitrary sufficient fuel: C04_quant_rec_ok, C04_restrict_ok, C04_prepare_ok, C04_substitute_ok, C04_apply_quant_ok and C04_bcdd_quant_rec_ok, C04_bcdd_apply_quant_ok, C04_bcdd_restrict_ok, C04_bcdd_substitute_ok; C04_cube_chain / C04_bcdd_cube_chain (a handle that denotes a cube has exactly that cube as the literal chain the code walks - canonicity). Spec laws: C04_quant_perm, C04_exists/forall_same_elems, C04_unique_perm, C04_unique_dup, C04_forall_exists_dual, C04_exists_forall_dual, C04_quant_not_support, C04_unique_not_support, C04_restrict_s_over, C04_over_spec, C04_restrict_s_perm, C04_subst_s_var/lift2/id/unused/shannon, C04_aext_bfun_of, C04_bcdd_dispatch_spec, C04_bcdd_unique_dispatch_spec. ZBDD restrict (8 theorems C04_zbdd_*): C04_zbdd_restrict (for every ZbddOK table with its tautology chain, lossy cache satisfying ZCacheOKB, operand f and cube handle vars that the executable reader zcube_lits accepts: restrict_edge returns an edge whose Boolean function is restrict_s lits (zbfun_of f), lits = the literals read off vars, and vars denotes exactly the conjunction of those literals; table only extended, invariants kept), C04_zbdd_restrict_view (per level-indexed choice, any fuel >= nlevels+1, any reference of cube shape ZCube), C04_zbdd_restrict_ok (the level-threaded recursion at every level: result family = prestr, C04_zbdd_prestr_spec), C04_zbdd_restrict_base_ok, C04_zbdd_cube_den (cube shape => denotes the conjunction of its literals), C04_zbdd_cube_lits (the executable reader is sound), C04_zbdd_cube_agree (the shape determines the literals: cache entries keyed by (f, vars) are unambiguous). Tie to the code (BDD and BCDD; ZBDD has no quantifier API, its restrict shares the sweep and is replayed on the extracted ZBDD model through ocaml/c02z_main.ml: cube built with the extracted zvar / znot_var / intersection, zcube_lits must read back exactly the requested literals, zrestrict_edge must return the edge of the real result; 256 functions x 27 cubes under a seed-chosen order, random functions x random cubes over 4..6 (thorough: 7) variables under random orders, random ZBDD histories): all 256 three-variable functions x all 8 variable subsets x {exists, forall, unique}, x all 27 literal cubes for restrict, sampled pairs x 8 operators x 3 quantifiers x random subsets for the fused forms, replacement vectors from a function pool with one substitution object reused many times and several substitutions alternated with gc and drops in between, under a seed-chosen order (all 6 in thorough); random histories over 4..7 variables; every result's value table (extracted interpreter on the lifted snapshot) must equal the extracted spec (Sem.exists_s / forall_s / unique_s / restrict_s / subst_s) of the operands' tables. BDD and BCDD cases run a second time through ocaml/c04_main.ml: each of these operations is replayed by the extracted models of coq/DD/Quant.v / coq/DD/QuantBcdd.v on the lifted snapshot (table and cache threaded through a snapshot window, a fresh model id per MKSUBST; every 8th operation again without cache and with the reverse operand order) and must return the edge of the real result.",
-    "level_note": "Trusted: Coq kernel, extraction, OCaml drivers, Rust harness, public accessor API. The models are hand-written (coq/DD/Quant.v on top of coq/DD/Apply.v; coq/DD/QuantBcdd.v on top of coq/DD/ApplyBcdd.v). Modelling choices: the cache key (Substitute, numeric operand id) is encoded into the abstract operator code 39+id (BCDD: 15+id), injective; the unobservable edge order is a parameter; inner apply/quant calls get fuel S(nlevels) (proved sufficient); reference counts, the parallel recursor (C07) and out-of-memory paths are not modelled. ZBDD restrict: modelled and proved (coq/DD/ZbddRestrictProofs.v, ZbddRestrictTop.v); the hypothesis on the cube handle is its shape (ZCube / zcube_lits accepts it), shown to imply that it denotes the conjunction of the literals; the converse (every handle denoting a cube has that shape) follows from canonicity but is not stated as a theorem - the run checks zcube_lits on every cube the harness builds. Partial: The history state machine (C04_qstep_ok / C04_qrun_ok) is stated for the plain BDD kind only. unique over a list with a repeated variable is outside the API (a variable set has no multiplicities): C04_unique_dup states what the spec gives. new_substitution_id's global counter is represented by the registry Sg (id |-> object); that ids are never reused is the hypothesis Sg id = Some pairs / Sg id = None of the theorems (and the id counter of the state machine); that gc/reorder clear the cache is C06.",
+    "level_text": "Theorems (coq/Props/C04.v, 64, all closed under the global context). Entry points of the plain BDD kind, in terms of the Boolean function a handle denotes (bfun_of) and coq/DD/Sem.v: C04_exists / C04_forall / C04_unique (result = exists_s / forall_s / unique_s over the caller's variable list, where the vars handle denotes the conjunction of those variables; any list order, duplicates allowed for exists/forall), C04_apply_exists / C04_apply_forall / C04_apply_unique (all 8 operators: result = the quantifier applied to lift2 op f g), C04_apply_quant_is_apply_then_quant (the fused form and apply-then-quantify both terminate and denote the same function whatever the caches hold), C04_restrict (result = restrict_s lits f for the literal cube denoted by the vars handle), C04_substitute (result = subst_s of the pairs' functions, simultaneous, for every use of every substitution object registered under its id, in any interleaving, with whatever the cache accumulated before), C04_subst_register / C04_subst_fresh_no_entry (an id never handed out serves nothing, registering it keeps the invariant), C04_qinv_init / C04_qstep_ok / C04_qrun_ok (state machine over table, cache, registry of substitution objects, id counter and cache clears: every operation of every history terminates, keeps the invariant and returns the spec function). The same for the complement-edge kind: C04_bcdd_quant, C04_bcdd_apply_quant (through apply_quant_dispatch::<Q,QN> and apply_quant_unique_dispatch incl. UniqueNand, all 8 operators), C04_bcdd_restrict (f_neg / vars_neg tracking), C04_bcdd_substitute, C04_bcdd_subst_register, C04_bcdd_subst_fresh_no_entry. Each of these also states: the model never gets stuck with fuel S(nlevels), the table is only extended, the table invariant (BddOK / BcOK) and the cache invariant (QCacheOK / QCacheOKC) are preserved. Recursive algorithms for arbitrary sufficient fuel: C04_quant_rec_ok, C04_restrict_ok, C04_prepare_ok, C04_substitute_ok, C04_apply_quant_ok and C04_bcdd_quant_rec_ok, C04_bcdd_apply_quant_ok, C04_bcdd_restrict_ok, C04_bcdd_substitute_ok; C04_cube_chain / C04_bcdd_cube_chain (a handle that denotes a cube has exactly that cube as the literal chain the code walks - canonicity). Spec laws: C04_quant_perm, C04_exists/forall_same_elems, C04_unique_perm, C04_unique_dup, C04_forall_exists_dual, C04_exists_forall_dual, C04_quant_not_support, C04_unique_not_support, C04_restrict_s_over, C04_over_spec, C04_restrict_s_perm, C04_subst_s_var/lift2/id/unused/shannon, C04_aext_bfun_of, C04_bcdd_dispatch_spec, C04_bcdd_unique_dispatch_spec. ZBDD restrict (11 theorems C04_zbdd_*): C04_zbdd_restrict_is_cube (the statement of the property text: for every ZbddOK table with its tautology chain, lossy cache satisfying ZCacheOKB, operand f and ANY handle vars whose Boolean function is the conjunction of the literals lits (distinct variables): restrict_edge returns an edge whose Boolean function is restrict_s lits (zbfun_of f); via C04_zbdd_cube_shape: a reference that denotes a cube has the shape the code walks - canonicity - and C04_zbdd_cube_lits_complete: the run-time reader accepts it), C04_zbdd_restrict (the same for a handle accepted by the executable reader zcube_lits: for every ZbddOK table with its tautology chain, lossy cache satisfying ZCacheOKB, operand f and cube handle vars that the executable reader zcube_lits accepts: restrict_edge returns an edge whose Boolean function is restrict_s lits (zbfun_of f), lits = the literals read off vars, and vars denotes exactly the conjunction of those literals; table only extended, invariants kept), C04_zbdd_restrict_view (per level-indexed choice, any fuel >= nlevels+1, any reference of cube shape ZCube), C04_zbdd_restrict_ok (the level-threaded recursion at every level: result family = prestr, C04_zbdd_prestr_spec), C04_zbdd_restrict_base_ok, C04_zbdd_cube_den (cube shape => denotes the conjunction of its literals), C04_zbdd_cube_lits (the executable reader is sound), C04_zbdd_cube_agree (the shape determines the literals: cache entries keyed by (f, vars) are unambiguous). Tie to the code (BDD and BCDD; ZBDD has no quantifier API, its restrict shares the sweep and is replayed on the extracted ZBDD model through ocaml/c02z_main.ml: cube built with the extracted zvar / znot_var / intersection, zcube_lits must read back exactly the requested literals, zrestrict_edge must return the edge of the real result; 256 functions x 27 cubes under a seed-chosen order, random functions x random cubes over 4..6 (thorough: 7) variables under random orders, random ZBDD histories): all 256 three-variable functions x all 8 variable subsets x {exists, forall, unique}, x all 27 literal cubes for restrict, sampled pairs x 8 operators x 3 quantifiers x random subsets for the fused forms, replacement vectors from a function pool with one substitution object reused many times and several substitutions alternated with gc and drops in between, under a seed-chosen order (all 6 in thorough); random histories over 4..7 variables; every result's value table (extracted interpreter on the lifted snapshot) must equal the extracted spec (Sem.exists_s / forall_s / unique_s / restrict_s / subst_s) of the operands' tables. BDD and BCDD cases run a second time through ocaml/c04_main.ml: each of these operations is replayed by the extracted models of coq/DD/Quant.v / coq/DD/QuantBcdd.v on the lifted snapshot (table and cache threaded through a snapshot window, a fresh model id per MKSUBST; every 8th operation again without cache and with the reverse operand order) and must return the edge of the real result.",
+    "level_note": "Trusted: Coq kernel, extraction, OCaml drivers, Rust harness, public accessor API. The models are hand-written (coq/DD/Quant.v on top of coq/DD/Apply.v; coq/DD/QuantBcdd.v on top of coq/DD/ApplyBcdd.v). Modelling choices: the cache key (Substitute, numeric operand id) is encoded into the abstract operator code 39+id (BCDD: 15+id), injective; the unobservable edge order is a parameter; inner apply/quant calls get fuel S(nlevels) (proved sufficient); reference counts, the parallel recursor (C07) and out-of-memory paths are not modelled. ZBDD restrict: modelled and proved (coq/DD/ZbddRestrictProofs.v, ZbddRestrictTop.v, ZbddCubeCanon.v); the recursion theorems take the cube handle by its shape (ZCube / zcube_lits), the entry-point theorem C04_zbdd_restrict_is_cube by its meaning (shape <=> denotes the conjunction of the literals: C04_zbdd_cube_den, C04_zbdd_cube_shape). Partial: The history state machine (C04_qstep_ok / C04_qrun_ok) is stated for the plain BDD kind only. unique over a list with a repeated variable is outside the API (a variable set has no multiplicities): C04_unique_dup states what the spec gives. new_substitution_id's global counter is represented by the registry Sg (id |-> object); that ids are never reused is the hypothesis Sg id = Some pairs / Sg id = None of the theorems (and the id counter of the state machine); that gc/reorder clear the cache is C06.",
 }
 ALLOWED_AXIOMS = ()
 
